@@ -11,7 +11,7 @@
 namespace verif {
 const PropertyInfo kInfo = {
     "C28", 12, 8, 40,
-    "tape -> daemon without control token; control_stream_max_bytes (cap) from {1,2,16,64,255,256,1024,4096,65536} or uniform 1..2048; TTL window from "
+    "tape -> daemon without control token (4/5; 1/5 with a token that every request carries exactly: admission rules only); control_stream_max_bytes (cap) from {1,2,16,64,255,256,1024,4096,65536} or uniform 1..2048; TTL window from "
     "{30s..6h, 1s..1h, 60s..24h, 10..100s, 1..1s, 1h..2h}; store PoW difficulty 0 (half) or 1..10; history of up to 40 requests from the one loopback "
     "address: plain valid STORE (3/8), STORE with one varied admission field, streamed FETCH of a local chunk, clock advance. Varied fields: PAYLOAD-LENGTH in "
     "{cap-1, cap, cap+1 without body, cap+1 with body, 2^63, 2^64-1, 2^64, non-numeric, negative} (no body byte is sent when over the cap); TTL in {absent, min, max, "
@@ -62,12 +62,17 @@ void run_case(Ctx& c) {
     cfg.store_pow_difficulty = static_cast<std::uint8_t>(difficulty);
     cfg.shard_threshold = 1;  // short manifests: the FETCH request line is read byte by byte
     cfg.shard_total = 1;
-    c.note("cap=%zu ttl=[%lld,%lld] pow=%u", cap, mn, mx, difficulty);
+    // one case in five: the daemon has a control token and every request carries it exactly; the admission rules (size,
+    // TTL, PoW) are asserted as before, the rate sentence (stated for daemons without a token) is not
+    const bool with_token = t.h(6) >= 205;
+    const std::string daemon_token = "tok-" + std::to_string(case_seed);
+    if (with_token) { cfg.control_token = daemon_token; c.label("daemon_with_control_token"); }
+    c.note("cap=%zu ttl=[%lld,%lld] pow=%u%s", cap, mn, mx, difficulty, with_token ? " token-configured" : "");
 
     Node node(vnode::make_id(7, 0x28), cfg);
     {
         const Config& sc = node.config();
-        if (sc.min_manifest_ttl.count() != mn || sc.max_manifest_ttl.count() != mx || sc.store_pow_difficulty != difficulty || sc.control_stream_max_bytes != cap || sc.control_token)
+        if (sc.min_manifest_ttl.count() != mn || sc.max_manifest_ttl.count() != mx || sc.store_pow_difficulty != difficulty || sc.control_stream_max_bytes != cap || sc.control_token.has_value() != with_token)
             c.fail("C28:harness-error", "configuration changed by sanitisation");
     }
     // the chunk that FETCH streams (stored directly, not through the control plane)
@@ -101,6 +106,7 @@ void run_case(Ctx& c) {
     auto token_header = [&](vctl::Request& q, unsigned sel, std::size_t i) -> bool {
         // 0: none, 1: different on every request, 2: shared, 3: empty
         unsigned kind = sel < 64 ? 0 : sel < 176 ? 1 : sel < 224 ? 2 : 3;
+        if (with_token) { q.headers.push_back({"TOKEN", daemon_token}); return false; }
         if (kind == 0) return false;
         if (avoid_token) { c.count_excluded(kRateSig); return false; }
         std::string v = kind == 1 ? "t" + std::to_string(i) + "-" + std::to_string(sel) : kind == 2 ? "shared-secret" : "";
@@ -156,7 +162,7 @@ void run_case(Ctx& c) {
                 if (resp.field("STATUS") == "OK") {
                     fetch_ok.push_back({now, tok});
                     std::size_t n = in_window(fetch_ok, now);
-                    if (n > 12) {
+                    if (n > 12 && !with_token) {
                         const char* sig = any_token(fetch_ok, now) ? kRateSig : "C28:fetch-rate-limit-exceeded";
                         c.fail(sig, std::to_string(n) + " streamed FETCHes accepted from one address inside a 30 s window (limit 12)");
                     }
@@ -317,12 +323,12 @@ void run_case(Ctx& c) {
             if (!after.count(id_hex) || after.at(id_hex) != q.payload.size()) c.fail("C28:accepted-store-not-stored", what);
             store_ok.push_back({now, tok});
             std::size_t n = in_window(store_ok, now);
-            if (n > 6) {
+            if (n > 6 && !with_token) {
                 const char* sig = any_token(store_ok, now) ? kRateSig : "C28:store-rate-limit-exceeded";
                 c.fail(sig, std::to_string(n) + " STOREs accepted from one address inside a 30 s window (limit 6); last: " + what);
             }
         } else {
-            if (in_window(store_sent, now) <= 6) c.fail("C28:valid-store-refused", what + " although only " + std::to_string(in_window(store_sent, now)) + " STORE(s) were sent in the last 30 s");
+            if (in_window(store_sent, now) <= 6 && !with_token) c.fail("C28:valid-store-refused", what + " although only " + std::to_string(in_window(store_sent, now)) + " STORE(s) were sent in the last 30 s");
             if (code.find("RATE") != std::string::npos) c.label("store_rate_limited");
         }
     }
